@@ -92,6 +92,10 @@ func loadEngine(repo, verif string) (*Engine, error) {
 	for k, n := range freshCtr {
 		x.freshBase[k] = n
 	}
+	x.ufMemoBase = map[string]*Term{}
+	for k, t := range ufMemo {
+		x.ufMemoBase[k] = t
+	}
 	cs, err := loadContracts(repo, filepath.Join(verif, "contracts"))
 	if err != nil {
 		return nil, err
